@@ -21,7 +21,7 @@ MANIFEST = {
     "technique": "bounded-exhaustive enumeration of inputs x configurations and of operation histories with a structural invariant on every result",
 }
 MANIFEST["text"] += " " + (
-    'Added after the seeding waves: the index must equal the last lattice column that holds a live emitting candidate (a fact of the lattice, not only of the returned path); traces of length 4 with an outlier in the middle; jump histories match / continue_with_distance / extend on the named graphs; the cut-off configurations additionally with the package logger at DEBUG (stopped candidates are then materialised in the lattice).')
+    'Added after the seeding waves: the index must equal the last lattice column that holds a live emitting candidate (a fact of the lattice, not only of the returned path); traces of length 4 with an outlier in the middle; jump histories match / continue_with_distance / extend on the named graphs; the cut-off configurations additionally with the package logger at DEBUG (stopped candidates are then materialised in the lattice); histories whose calls ask for different forms of the state list (unique on one call, not on the next).')
 BUDGET = {"quick": 420, "thorough": 3000}
 RULE = ("states = path states inspected, transitions = path steps inspected, traces validated = results compared with the reference "
         "start-candidate rule; non-trivial = the match stopped early, is empty, or contains non-emitting states; outcomes = (index, "
@@ -55,6 +55,14 @@ def cases(tier):
             yield {"kind": "run", "gs": list(gs), "slice": "n3", "T": 3, "tier": tier, "debug": True}
     for name, pos, g in ms.special_graphs():
         yield {"kind": "run", "gs": ms.explicit(g), "pos": pos, "slice": "special", "name": name, "tier": tier, "debug": True}
+    # `unique` is an argument of every call: histories whose operations ask for different forms of the state list
+    for hist in ([["M", 9, "u"], ["W", 2]], [["M", 9], ["W", 2, "u"]], [["M", 9, "u"], ["X", 9]], [["M", 2], ["X", 9, "u"], ["W", 3]],
+                 [["M", 9, "u"], ["M", 9]], [["M", 9], ["X", 9, "u"]]):
+        for name, pos, g in ms.special_graphs():
+            yield {"kind": "hist", "gs": ms.explicit(g), "pos": pos, "slice": "hist-special", "name": name, "T": 3, "hist": hist, "tier": tier}
+        for gs in ms.graph_slice("n3"):
+            if gs[0] == "GENERIC" and bin(gs[2]).count("1") >= 3:
+                yield {"kind": "hist", "gs": list(gs), "slice": "hist", "T": 3, "hist": hist, "tier": tier}
     # after an early stop: jump with continue_with_distance(), then extend - the result must still be aligned
     for hist in ([["M", 9], ["C", None], ["X", 9]], [["M", 9], ["C", 1.0], ["X", 9]]):
         for name, pos, g in ms.special_graphs():
@@ -65,6 +73,8 @@ DEBUG_CFGS = [C(f, ne, True, cut) for f in ms.FAMS for ne in (False, True) for c
 
 
 def judge(m, r, graph, trace, c, unique, ctx):
+    if ctx.get("op") and len(ctx["op"]) > 2 and ctx["op"][2] == "u":
+        unique = True
     if isinstance(r, Exception):
         return [(None, f"raised {r!r}")] if not ctx["expand"] else []
     if ctx.get("op") and ctx["op"][0] == "C":
